@@ -4,14 +4,14 @@ from common import VERIF
 
 READY = True
 
-STAGE = "3-partial: vm_refines_eval_partial proved for text / emit / set (incl. unpacking) / set-block / filter-block / if-elif-else / with / for-else with unpacking targets and loop filter (no break/continue) over expressions with constant folding, short-circuit and/or, if-expressions, filters, tests, attribute/item access, list/map literals, chained comparisons (every expression form except calls); stage 2 (model code generator incl. macros, call blocks, calls and the find_macro_closure analysis == real instruction stream on every generated program; model VM == exec == engine on macro-free programs; extended model VM with closures, prepare_args and the live loop object with its adjacent-item look-ahead == exec == engine on all programs); break / continue / macros not yet proved"
+STAGE = "3-partial: vm_refines_eval_partial proved for text / emit / set (incl. unpacking) / set-block / filter-block / if-elif-else / with / for-else with unpacking targets, loop filter, break and continue over expressions with constant folding, short-circuit and/or, if-expressions, filters, tests, attribute/item access, list/map literals, chained comparisons (every expression form except calls); stage 2 (model code generator incl. macros, call blocks, calls and the find_macro_closure analysis == real instruction stream on every generated program; model VM == exec == engine on macro-free programs; extended model VM with closures, prepare_args and the live loop object with its adjacent-item look-ahead == exec == engine on all programs); macros / call blocks / calls not yet proved"
 
 META = {
     "technique": "Lean 4: reference interpreter of the core fragment with kernel-checked scoping / loop-variable / for-else laws; model of the code generator (back-patched absolute jumps) and of the VM with a kernel-checked refinement theorem for a fragment; ties: typed random programs -> real parser (AST dumped and compared) -> (a) Template::render vs. the interpreter (oracle, delta-debugging shrinker), (b) model code generator vs. the real instruction stream instruction by instruction, (c) model VM vs. engine and vs. the interpreter; tables regenerated from source",
     "category": "proof",
-    "text": "MJ/Model/Eval.lean is the documented semantics of the core fragment (expressions, if/elif/else, for/else/filter/unpacking/loop, set, set-block, with, filter-block, macros with defaults and keyword arguments, call blocks, break/continue) as a structurally recursive interpreter that shares nothing with the compiler and VM. Kernel-checked: assignments inside for/with/macro/call-block bodies leave every enclosing scope unchanged, assignments at template level and in if-branches persist, the loop object of iteration i is <i, len, xs[i-1]?, xs[i+1]?> for every list, the else branch runs iff the filtered sequence is empty; constant folding is sound; the back-patching code generator model equals a structured generator with resolved targets; vm_refines_eval_partial: the model VM on the generated code renders what the interpreter renders, for templates of text / emit / set (with unpacking) / set-block / filter-block / if / with / for-else with loop filter (no loop controls) over expressions with short-circuit and/or, if-expressions, filters, tests, attribute and item access, list and map literals. The engine is tied to the models by rendering generated programs with the real engine (real parser in the loop), by comparing the real instruction streams with the model generator's, and by running the model VM.",
+    "text": "MJ/Model/Eval.lean is the documented semantics of the core fragment (expressions, if/elif/else, for/else/filter/unpacking/loop, set, set-block, with, filter-block, macros with defaults and keyword arguments, call blocks, break/continue) as a structurally recursive interpreter that shares nothing with the compiler and VM. Kernel-checked: assignments inside for/with/macro/call-block bodies leave every enclosing scope unchanged, assignments at template level and in if-branches persist, the loop object of iteration i is <i, len, xs[i-1]?, xs[i+1]?> for every list, the else branch runs iff the filtered sequence is empty; constant folding is sound; the back-patching code generator model equals a structured generator with resolved targets; vm_refines_eval_partial: the model VM on the generated code renders what the interpreter renders, for templates of text / emit / set (with unpacking) / set-block / filter-block / if / with / for-else with loop filter, break and continue over expressions with short-circuit and/or, if-expressions, filters, tests, attribute and item access, list and map literals. The engine is tied to the models by rendering generated programs with the real engine (real parser in the loop), by comparing the real instruction streams with the model generator's, and by running the model VM.",
     "design_ref": "DESIGN.md §3 C03",
-    "level_note": "Stage reached: " + STAGE + ". Trusted: Lean kernel; the reading of syntax.rs in MJ/Model/Eval.lean; hand transcription of codegen.rs / vm/mod.rs in MJ/Model/{Compile,Vm}.lean (validated on every generated macro-free program: instruction streams identical, VM results identical); harness unparse + serde AST dump (checked by AST equality on every case). Not proved: refinement for break/continue (checked by running the model VM against exec and the engine on every generated program), macros, call blocks and calls are modelled in Compile (instruction streams compared) and in the extended VM model VmM (results compared) but are not part of the refinement theorem.",
+    "level_note": "Stage reached: " + STAGE + ". Trusted: Lean kernel; the reading of syntax.rs in MJ/Model/Eval.lean; hand transcription of codegen.rs / vm/mod.rs in MJ/Model/{Compile,Vm}.lean (validated on every generated macro-free program: instruction streams identical, VM results identical); harness unparse + serde AST dump (checked by AST equality on every case). Not proved: macros, call blocks and calls are modelled in Compile (instruction streams compared) and in the extended VM model VmM (results compared) but are not part of the refinement theorem.",
 }
 
 STMT_HEADS = {"text", "emit", "ifs", "for", "set", "setb", "with", "fblk", "macro", "callb", "break", "continue"}
